@@ -7,6 +7,7 @@ import (
 	"os"
 	"path/filepath"
 	"sort"
+	"strconv"
 	"strings"
 	"sync"
 	"time"
@@ -19,14 +20,14 @@ import (
 const repoMod = "github.com/trustbloc/sidetree-go"
 
 type Engine struct {
-	prog     *ssa.Program
-	pkgs     []*packages.Package
-	execPfx  []string
-	workers  int
-	solver   string
-	crossDir string
-	maxPaths int
-	verbose  bool
+	prog               *ssa.Program
+	pkgs               []*packages.Package
+	execPfx            []string
+	workers            int
+	solver             string
+	crossDir           string
+	maxPaths           int
+	verbose            bool
 	summariseTransform bool
 }
 
@@ -36,7 +37,7 @@ var defaultExec = []string{
 	"github.com/multiformats/go-multihash",
 	"github.com/multiformats/go-varint",
 	"github.com/go-jose/go-jose/v3",
-	"github.com/trustbloc/did-go/doc/did", "github.com/trustbloc/did-go/vdr/api",
+	"github.com/trustbloc/did-go/doc/did", "github.com/trustbloc/did-go/vdr/api", "github.com/trustbloc/kms-go/doc/jose/jwk",
 	"unicode/utf8", "unicode/utf16", "unicode", "container/list", "errors", "bytes", "strings", "sort", "slices", "cmp", "math/bits", "strconv",
 	"github.com/pkg/errors", "encoding/binary", "encoding/base64", "internal/bytealg", "internal/stringslite", "math", "internal/itoa",
 }
@@ -102,30 +103,30 @@ type PathResult struct {
 }
 
 type HarnessResult struct {
-	Name          string
-	Pkg           string
-	Paths         int
-	Killed        int
-	Panics        int
-	Errors        []string
-	Steps         int64
-	Blocks        int64
-	Queries       int
-	SolverTime    time.Duration
-	Violations    []*Violation
-	Inconclusive  []string
-	Reach         map[string]*PathResult // first witness per label
-	AssertsChk    int
-	AssertsDis    int
-	Funcs         map[string]int
-	Summaries     map[string]bool
-	Wall          time.Duration
-	Truncated     bool
-	SamplePaths   []*PathResult
-	SolverErrors  int
-	Transcripts   []string
-	WitnessRes    []WitnessResult
-	VioCount      map[string]int
+	Name         string
+	Pkg          string
+	Paths        int
+	Killed       int
+	Panics       int
+	Errors       []string
+	Steps        int64
+	Blocks       int64
+	Queries      int
+	SolverTime   time.Duration
+	Violations   []*Violation
+	Inconclusive []string
+	Reach        map[string]*PathResult // first witness per label
+	AssertsChk   int
+	AssertsDis   int
+	Funcs        map[string]int
+	Summaries    map[string]bool
+	Wall         time.Duration
+	Truncated    bool
+	SamplePaths  []*PathResult
+	SolverErrors int
+	Transcripts  []string
+	WitnessRes   []WitnessResult
+	VioCount     map[string]int
 }
 
 // Explore runs a harness function over all feasible paths.
@@ -248,6 +249,20 @@ func (e *Engine) Explore(fn *ssa.Function, unwind int) *HarnessResult {
 					res.VioCount[v.Label]++
 					if res.VioCount[v.Label] <= 3 {
 						res.Violations = append(res.Violations, v)
+					} else {
+						// keep the three counterexamples that are cheapest to reproduce natively (fewest leading-zero
+						// bytes demanded of random keys and signatures)
+						worst, wc := -1, replayCost(v)
+						for i, o := range res.Violations {
+							if o.Label == v.Label {
+								if c := replayCost(o); c > wc {
+									worst, wc = i, c
+								}
+							}
+						}
+						if worst >= 0 {
+							res.Violations[worst] = v
+						}
 					}
 				}
 				res.Inconclusive = append(res.Inconclusive, pr.Inconclusive...)
@@ -516,4 +531,16 @@ func (in *Interp) eventStrings() []string {
 		}
 	}
 	return out
+}
+
+// replayCost: how rare the native values are that a counterexample's model asks for.
+func replayCost(v *Violation) int {
+	c := 0
+	for _, e := range v.Model {
+		if m, ok := e.(map[string]string); ok && m["k"] == "lz" {
+			n, _ := strconv.Atoi(m["v"])
+			c += n
+		}
+	}
+	return c
 }
